@@ -95,9 +95,6 @@ use crate::{
 };
 
 mod bundle_factory;
-#[cfg(all(test, feature = "verif"))]
-#[path = "/verif/harness/composer_executor/mod.rs"]
-mod verif_harness;
 
 pub(crate) mod builder;
 
